@@ -6,6 +6,7 @@ import Driver.EngComb
 import Driver.EngScan
 import Driver.EngWriter
 import Driver.EngRenumber
+import Driver.EngCnf
 
 open Driver
 
@@ -16,6 +17,7 @@ def runLine (line : String) : String × String :=
   | some "scan" => runScanCase line
   | some "writer" => runWriterCase line
   | some "renumber" => runRenumberCase line
+  | some "cnf" => runCnfCase line
   | _ => ("unknown-engine", "")
 
 partial def loop (h : IO.FS.Stream) (out : IO.FS.Stream) : IO Unit := do
